@@ -10,7 +10,7 @@ for d in seeded/C*-*/; do
   [ -n "$ONLY" ] && ! echo " $ONLY " | grep -q " $id " && continue
   wt=/tmp/sm-$id
   git -C /repo worktree add --detach $wt HEAD -q || continue
-  if ! git -C $wt apply $d/patch.diff 2>/dev/null && ! git -C $wt apply -3 $d/patch.diff 2>/dev/null; then
+  if ! git -C $wt apply /verif/$d/patch.diff 2>/dev/null && ! git -C $wt apply -3 /verif/$d/patch.diff 2>/dev/null; then
     printf '%s\t%s\tno (the code it changes was repaired since)\t-\t-\t-\n' $id $prop >> $out
     git -C /repo worktree remove --force $wt; continue
   fi
